@@ -21,7 +21,7 @@ TIERS = {
 }
 # per backend: (fraction of the cases replayed, hypotest every k-th case, harness-drawn float probes per chunk)
 PLAN = {
-    "quick": {"numpy": (1.0, 1, 12), "other": (0.15, 4, 4)},
+    "quick": {"numpy": (1.0, 1, 12), "other": (0.06, 4, 4)},       # every backend in every run, each on a seeded share of the cases
     "thorough": {"numpy": (1.0, 1, 60), "other": (1.0, 2, 20)},
 }
 
@@ -43,7 +43,7 @@ def run(prop, tier):
     cases = sorted(open(res.cases_path).read().splitlines())   # TLC's workers print in a run-dependent order
     rnd = random.Random(sd)
     rnd.shuffle(cases)
-    backends = ["numpy"] + (OTHERS if tier == "thorough" else [OTHERS[sd % 3]])
+    backends = ["numpy"] + OTHERS
     tot = dict(n=0, nontrivial=0, calls=0, hypotests=0, seam_probes=0, float_probes=0, beyond_tail=0, compared=0, stub_calls=0,
                refused_early=0, branch2=0, seam=0, capped=0, rescans=0)
     maxrel, per_backend, kinds = 0.0, {}, {}
